@@ -56,6 +56,8 @@ MSHAPE = {"pkg": "catalog", "fn": "VerifH_MarshalShape", "quick": {}, "thorough"
           "instances_thorough": [{"T": 4}], "stubs": {"encoding/json.Marshal": "verifStubJSONMarshalLogged"}}
 FIXTURES = {"pkg": "core", "fn": "VerifH_Fixture", "quick": {}, "thorough": {}, "full_schema_lib": True,
             "fixtures": 256, "fixtures_thorough": -1, "fixture_max_bytes": 20000, "step_budget": 60000000, "tolerated_inconclusive": ["budget: step budget"]}
+STRUCT_SCHEMA = doc("VerifH_CatalogStructure", {"K": 3, "MENU": 4}, {"K": 4, "MENU": 4}, full_schema_lib=True)
+STRUCT_RPC = doc("VerifH_CatalogStructure", {"K": 4, "MENU": 5}, {"K": 5, "MENU": 5}, full_schema_lib=True)
 PGRAPH = doc("VerifH_PasteGraph", {"M": 3}, {"M": 4}, budget_violation=True, depth_budget=300)
 
 CHECKS = {
@@ -121,9 +123,10 @@ CHECKS = {
  },
  "C04": {
   "title": "Catalog faithfulness",
-  "harnesses": [STRUCT, STRUCT_TAGS, STRUCT_PARENS, STRUCT_RESP],
-  "assumptions": DOC_ASSUME + ["reference model (refCatalogSig): reads info, servers, types, tags (declared first, then automatic per first path segment), and interactions with id / method / path / annotation / description / tags / request / responses off the template sequence using the C06 reference resolver for nesting"],
-  "not_decided": DOC_NOT + ["documents with MACRO / PASTE (compared relationally by C07)"],
+  "harnesses": [STRUCT, STRUCT_TAGS, STRUCT_PARENS, STRUCT_RESP, STRUCT_SCHEMA, STRUCT_RPC],
+  "assumptions": DOC_ASSUME + ["reference model (refCatalogSig): reads info, servers, types, tags (declared first, then automatic per first path segment), and interactions with id / method / path / annotation / description / tags / request / responses off the template sequence using the C06 reference resolver for nesting",
+                                "schema-bearing menus (MENU 3, 4, 5) run the real schema library: object TYPE, ENUM (value tree), responses that are a reference or an array of references (usedUserTypes), object Request, response Headers, JSON-RPC Method with Params and Result; the reference gives the expected schema tree (key, token type, type, scalar) per template"],
+  "not_decided": ["documents outside the template menus or longer than K lines", "schema bodies other than the templates' (the notation regex, nested objects, rules / annotations inside bodies, Query)", "the JSON rendering", "documents with MACRO / PASTE (compared relationally by C07)"],
  },
  "C05": {
   "title": "Surface syntax is immaterial",
